@@ -5,6 +5,7 @@ mod gen;
 mod l1;
 mod l2;
 mod l3;
+mod l4;
 mod tok;
 mod util;
 
@@ -71,6 +72,29 @@ fn handle(line: &str, oracle: bool) -> String {
                 (u, true) if u.starts_with('U') => { let r = l3::op_buildseq(&t[1..]); if r == "ERR EncodingNotSupported" { "PASS".into() } else { format!("FAIL C09 {}", r) } }
                 _ => bad(),
             },
+        },
+        (["SIG", g, b, a], _) => match (b.parse::<u8>(), a.parse::<u32>()) {
+            (Ok(b), Ok(a)) => l4::op_sig(g, b, a),
+            _ => bad(),
+        },
+        (["SIGCMP", g, b1, a1, b2, a2], o) => match (b1.parse::<u8>(), a1.parse::<u32>(), b2.parse::<u8>(), a2.parse::<u32>()) {
+            (Ok(b1), Ok(a1), Ok(b2), Ok(a2)) => if o { l4::oracle_sigcmp(g, b1, a1, b2, a2) } else { l4::op_sigcmp(g, b1, a1, b2, a2) },
+            _ => bad(),
+        },
+        (["SERDESTR", kind, n, rest @ ..], o) => match n.parse::<usize>() {
+            Ok(n) => if o { l4::oracle_serde_str(kind, n, rest) } else { l4::op_serde_str(kind, n, rest) },
+            _ => bad(),
+        },
+        (["SERDEMSG", n, rest @ ..], _) => match n.parse::<u16>().ok().and_then(|n| l3::build_from_tokens(n, rest)) {
+            Some(m) => match l4::serde_msg(&m) { Ok(()) => "PASS".into(), Err(e) => format!("FAIL C20 {}", e) },
+            None => bad(),
+        },
+        (["SERDEFRAME", h], _) => match unhex(h) {
+            Some(d) => match rtcm_rs::MessageFrame::new(&d) {
+                Ok(f) => match l4::serde_msg(&f.get_message()) { Ok(()) => "PASS".into(), Err(e) => format!("FAIL C20 {}", e) },
+                Err(_) => "PASS not a frame".into(),
+            },
+            None => bad(),
         },
         (["BUILDSEQ", rest @ ..], o) => if o { l3::oracle_buildseq(rest) } else { l3::op_buildseq(rest) },
         (["STR88591", n, rest @ ..], o) => match n.parse::<usize>() {
